@@ -476,3 +476,105 @@ T("C18-t-nested-skip", "C18", TREE, '''            if "hibernation" in self.conf
                     continue
             deme.run_metaepoch(self)
 ''', "nested ifs")
+
+# ----------------------------------------------------------------------------- C09
+_GETTER_NOW = '''    def centroid(self) -> np.ndarray:
+        return compute_centroid(self.current_population)
+'''
+_GETTER_MEMO = '''    def centroid(self) -> np.ndarray:
+        if self._centroid is None:
+            self._centroid = compute_centroid(self.current_population)
+        return self._centroid
+'''
+M("C09-pinned-memo", "C09", ABS, _GETTER_NOW, _GETTER_MEMO, ["R09.1"], "pinned defect: memo reset only by CMADeme")
+M("C09-all-individuals", "C09", ABS, "        return compute_centroid(self.current_population)\n", "        return compute_centroid(self.all_individuals)\n", ["R09.1", "R09.2"], "centroid of the whole history")
+M("C09-axis1", "C09", ABS, "    return np.mean([ind.genome for ind in population], axis=0)", "    return np.mean([ind.genome for ind in population], axis=1)", ["R09.2"], "mean over the wrong axis")
+M("C09-median", "C09", ABS, "    return np.mean([ind.genome for ind in population], axis=0)", "    return np.median([ind.genome for ind in population], axis=0)", ["R09.2"], "median instead of mean")
+M("C09-half-pop", "C09", ABS, "    return np.mean([ind.genome for ind in population], axis=0)", "    return np.mean([ind.genome for ind in population[: max(1, len(population) // 2)]], axis=0)", ["R09.2"], "mean over half the population")
+M("C09-lt", "C09", FIL, "return nla.norm(ind.genome - centroid, ord=self.norm_ord) > self.min_distance\n", "return nla.norm(ind.genome - centroid, ord=self.norm_ord) < self.min_distance\n", ["R09.3"], "comparator reversed")
+M("C09-ge", "C09", FIL, "return nla.norm(ind.genome - centroid, ord=self.norm_ord) > self.min_distance_factor * mean_dist", "return nla.norm(ind.genome - centroid, ord=self.norm_ord) >= self.min_distance_factor * mean_dist", ["R09.3"], "non-strict comparator in NBC_FarEnough")
+M("C09-seed-not-centroid", "C09", FIL, "child_seeds = [ind for ind in child_seeds if self._is_far_enough(ind, sibling.centroid)]", "child_seeds = [ind for ind in child_seeds if self._is_far_enough(ind, sibling._sprout_seed.genome)]", ["R09.3"], "distance to the sibling's seed instead of its centroid")
+M("C09-some-sibling", "C09", FIL, '''            for sibling in child_siblings:
+                child_seeds = [ind for ind in child_seeds if self._is_far_enough(ind, sibling.centroid)]
+            candidates[deme].individuals = child_seeds
+''', '''            if child_siblings:
+                child_seeds = [ind for ind in child_seeds if any(self._is_far_enough(ind, s.centroid) for s in child_siblings)]
+            candidates[deme].individuals = child_seeds
+''', ["R09.3"], "far from SOME sibling")
+M("C09-no-activity-filter", "C09", FIL, "child_siblings = [sibling for sibling in tree.levels[deme.level + 1] if sibling.is_active]", "child_siblings = [sibling for sibling in tree.levels[deme.level + 1]]", ["R09.3"], "FarEnough compares with stopped demes too")
+M("C09-check-only-active-ignored", "C09", FIL, "sibling for sibling in tree.levels[deme.level + 1] if (sibling.is_active or not self.check_only_active)", "sibling for sibling in tree.levels[deme.level + 1] if sibling.is_active", ["R09.3"], "NBC_FarEnough ignores inactive siblings even when configured to consider all")
+M("C09-wrong-level", "C09", FIL, "child_siblings = [sibling for sibling in tree.levels[deme.level + 1] if sibling.is_active]", "child_siblings = [sibling for sibling in tree.levels[deme.level] if sibling.is_active]", ["R09.3"], "siblings taken from the parent's level")
+M("C09-first-sibling-only", "C09", FIL, '''                child_seeds = [ind for ind in child_seeds if self._is_far_enough(ind, sibling.centroid)]
+            candidates[deme].individuals = child_seeds''', '''                child_seeds = [ind for ind in child_seeds if self._is_far_enough(ind, sibling.centroid)]
+                if len(child_seeds) <= 1:
+                    break
+            candidates[deme].individuals = child_seeds''', ["R09.3"], "loop over siblings stops early")
+M("C09-feature-other-pop", "C09", GEN, '''class NBC_Generator(SproutCandidatesGenerator):''', '''class _Unused:
+    pass
+
+
+class NBC_Generator(SproutCandidatesGenerator):''', ["R09.4"], "placeholder (replaced below)")
+CORPUS.pop()
+MM("C09-feature-other-pop", "C09", [(GEN, '''                    deme_candidate_inds = nbc.cluster()
+                    candidates[deme] = DemeCandidates(
+                        individuals=deme_candidate_inds,
+                        features=DemeFeatures(nbc_mean_distance=np.mean(nbc.distances)),
+                    )
+        return candidates  # type: ignore[return-value]
+
+
+class NBCGeneratorWithLocalMethod''', '''                    deme_candidate_inds = nbc.cluster()
+                    wide = NearestBetterClustering(deme.all_individuals, self.distance_factor, 1.0)
+                    wide.cluster()
+                    candidates[deme] = DemeCandidates(
+                        individuals=deme_candidate_inds,
+                        features=DemeFeatures(nbc_mean_distance=np.mean(wide.distances)),
+                    )
+        return candidates  # type: ignore[return-value]
+
+
+class NBCGeneratorWithLocalMethod''')], ["R09.4"], "mean distance taken from a clustering of the whole history")
+_RESET = "self._centroid = None\n"
+TT("C09-t-memo-with-resets", "C09", [
+    (ABS, _GETTER_NOW, _GETTER_MEMO),
+    (EA, "        self._history.append([starting_pop])\n", "        self._history.append([starting_pop])\n        " + _RESET),
+    (EA, '''                self._history.append(metaepoch_generations)
+                self._active = False
+                self.log("EA Deme finished due to GSC")''', '''                self._history.append(metaepoch_generations)
+                self._centroid = None
+                self._active = False
+                self.log("EA Deme finished due to GSC")'''),
+    (EA, "        self._history.append(metaepoch_generations)\n        if self._lsc(self):", "        self._history.append(metaepoch_generations)\n        self._centroid = None\n        if self._lsc(self):"),
+    (DE, '''                self._history.append(metaepoch_generations)
+                self._active = False''', '''                self._history.append(metaepoch_generations)
+                self._centroid = None
+                self._active = False'''),
+    (DE, "        self._history.append(metaepoch_generations)\n        if self._lsc(self):", "        self._history.append(metaepoch_generations)\n        self._centroid = None\n        if self._lsc(self):"),
+    (SH, '''                self._history.append(metaepoch_generations)
+                self._active = False''', '''                self._history.append(metaepoch_generations)
+                self._centroid = None
+                self._active = False'''),
+    (SH, "        self._history.append(metaepoch_generations)\n        if self._lsc(self):", "        self._history.append(metaepoch_generations)\n        self._centroid = None\n        if self._lsc(self):"),
+    (LHS, "        self._history.append([population])\n", "        self._history.append([population])\n        self._centroid = None\n"),
+    (SOB, "        self._history.append([population])\n", "        self._history.append([population])\n        self._centroid = None\n"),
+    (LOC, "        self._history.append([self._run_history])\n", "        self._history.append([self._run_history])\n        self._centroid = None\n"),
+], "memoised centroid with a reset after every append")
+T("C09-t-mean-method", "C09", ABS, "    return np.mean([ind.genome for ind in population], axis=0)", "    genomes = np.array([ind.genome for ind in population])\n    return np.mean(np.array([ind.genome for ind in population]), axis=0)", "np.array wrapper")
+
+# ----------------------------------------------------------------------------- C20
+M("C20-pinned-marker", "C20", PT, '    best_symbol = " *** " if best_fitness is not None and deme.best_individual.fitness == best_fitness else " "', '    best_symbol = " *** " if best_fitness and deme.best_individual.fitness == best_fitness else " "', ["R20.2"], "pinned defect: truthiness of best_fitness")
+M("C20-pinned-highlight", "C20", PT, "    is_best = best_fitness is not None and deme.best_individual.fitness == best_fitness", "    is_best = best_fitness and deme.best_individual.fitness == best_fitness", ["R20.2"], "pinned defect in the diagram attributes")
+M("C20-marker-ge", "C20", PT, '    best_symbol = " *** " if best_fitness is not None and deme.best_individual.fitness == best_fitness else " "', '    best_symbol = " *** " if best_fitness is not None and deme.best_individual.fitness <= best_fitness else " "', ["R20.2"], "marker by <= instead of ==")
+M("C20-accessor-evaluates", "C20", ABS, "        return max(self.all_individuals) if self.all_individuals else None", "        return max(Individual.evaluate_population(self.all_individuals)) if self.all_individuals else None", ["R20.1"], "best_individual re-evaluates")
+M("C20-accessor-sorts-history", "C20", ABS, "        return max(self.current_population) if self.current_population else None", "        pop = self.current_population\n        pop.sort()\n        return pop[-1] if pop else None", ["R20.1"], "accessor sorts the recorded generation in place")
+M("C20-accessor-caches", "C20", TREE, "        return max(deme.best_individual for level in self._levels for deme in level if deme.best_individual)", "        self._best = max(deme.best_individual for level in self._levels for deme in level if deme.best_individual)\n        return self._best", ["R20.1"], "accessor stores state")
+M("C20-summary-draws", "C20", TREE, '        lines.append(f"Number of demes: {len(self.all_demes)}")\n        if level_summary:', '        lines.append(f"Number of demes: {len(self.all_demes)}")\n        if np.random.rand() < 0.0:\n            lines.append("")\n        if level_summary:', ["R20.1"], "summary draws a random number")
+M("C20-r5s-shuffles", "C20", R5S, "        if len(individuals) <= n:\n            return individuals\n", "        if len(individuals) <= n:\n            return individuals\n        individuals.sort()\n", ["R20.1"], "R5S selection sorts its argument in place")
+M("C20-tree-best-leaf", "C20", TREE, "format_deme(self.root, self.best_individual.fitness)", "format_deme(self.root, self.best_leaf_individual.fitness)", ["R20.3"], "root line marked against the best leaf, not the global best")
+M("C20-skip-new", "C20", PT, "        if child.metaepoch_count == 0:\n", "        if child.metaepoch_count <= 1:\n", ["R20.3"], "demes with one metaepoch are omitted too")
+M("C20-no-recursion-best", "C20", PT, '''            prefix=prefix + (" " if is_last else "|") + "   ",
+            best_fitness=best_fitness,
+''', '''            prefix=prefix + (" " if is_last else "|") + "   ",
+''', ["R20.3"], "grandchildren never get the marker")
+T("C20-t-marker-split", "C20", PT, '    best_symbol = " *** " if best_fitness is not None and deme.best_individual.fitness == best_fitness else " "', '    is_best = best_fitness is not None and deme.best_individual.fitness == best_fitness\n    best_symbol = " *** " if is_best else " "', "marker condition through a local")
+T("C20-t-best-sorted-copy", "C20", ABS, "        return max(self.current_population) if self.current_population else None", "        ranked = sorted(self.current_population)\n        return ranked[-1] if ranked else None", "sorted() copy instead of max")
